@@ -545,8 +545,8 @@ PROPS = {
                 "overflows u32; numeric extremes; 1 MB literal; 20000 properties; $ref cycles and dangling refs; parametric conditions nested "
                 "3000 deep and bit indices beyond 64; random slice lists; degenerate vocabularies), built under default or very tight "
                 "limits, followed by 40 random API calls (mask, commit from the mask, arbitrary token ids incl. u32::MAX, validate, "
-                "rollback, ff tokens). Each case runs on a 2 MiB-stack thread in a worker process with RLIMIT_AS 8 GiB and a 120 s "
-                "per-case RLIMIT_CPU budget (20 s in the quick tier); a BEGIN/END journal attributes a dead worker to its case and the worker is restarted after "
+                "rollback, ff tokens). Each case runs on a 2 MiB-stack thread in a worker process with RLIMIT_AS 8 GiB and a 240 s "
+                "per-case RLIMIT_CPU budget (40 s in the quick tier); a BEGIN/END journal attributes a dead worker to its case and the worker is restarted after "
                 "it. Oracles: death by signal / abort / stack overflow / allocation failure => violation; panic during a LEGAL call on a "
                 "built engine => violation; a failed engine answering a mask or accepting a token => violation; overflow oracle: the "
                 "overflow-checks build panics with an arithmetic overflow on x while the release build returns a usable engine for x => "
